@@ -46,6 +46,7 @@ pub fn dispatch(args: &Args, rep: &mut Report) -> bool {
         "c18child" => c18::child(args),
         "c19" => c19::run(args, rep),
         "c20" => c20::run(args, rep),
+        "fuzzreplay" => crate::fuzz::replay(args, rep),
         _ => return false,
     }
     true
